@@ -47,8 +47,15 @@ pub fn run_ops(
     true
 }
 
+/// timeouts >= 2^61 stand for `Duration::MAX`
+pub const TIMEOUT_MAX: i64 = 1 << 61;
+
 pub fn new_scanner(timeout: i64) -> PollingParameterNumberMessageScanner {
-    PollingParameterNumberMessageScanner::new(Duration::from_nanos(timeout as u64))
+    if timeout >= TIMEOUT_MAX {
+        PollingParameterNumberMessageScanner::new(Duration::MAX)
+    } else {
+        PollingParameterNumberMessageScanner::new(Duration::from_nanos(timeout as u64))
+    }
 }
 
 fn run_fresh(timeout: i64, ops: &[i64], obs: &mut Vec<i64>) -> bool {
@@ -93,7 +100,7 @@ pub fn exec(tag: i64, inp: &[i64]) -> Vec<i64> {
     }
 }
 
-pub const TIMEOUTS: [i64; 5] = [0, 1, 5, 1000, 1 << 60];
+pub const TIMEOUTS: [i64; 6] = [0, 1, 5, 1000, 1 << 60, TIMEOUT_MAX];
 
 pub fn time_step(r: &mut Rng, timeout: i64) -> i64 {
     let t = timeout.min(1 << 40);
@@ -105,14 +112,25 @@ pub fn time_step(r: &mut Rng, timeout: i64) -> i64 {
 pub fn random_history(r: &mut Rng, timeout: i64, maxlen: u64, v: &mut Vec<i64>) -> usize {
     let len = r.below(maxlen + 1);
     let nch = r.pick(&[1u64, 1, 2, 3, 16]);
+    let mut ops = Vec::new();
     for _ in 0..len {
-        match r.below(10) {
-            0 | 1 => v.extend_from_slice(&[3, r.below(nch) as i64, 0, 0]),
-            2 | 3 => v.extend_from_slice(&[4, time_step(r, timeout), 0, 0]),
-            _ => random_op(r, nch, v),
+        match r.below(11) {
+            0 | 1 => ops.extend_from_slice(&[3, r.below(nch) as i64, 0, 0]),
+            2 | 3 => ops.extend_from_slice(&[4, time_step(r, timeout), 0, 0]),
+            4 => {
+                // a poll round: let the timeout pass, then poll several channels in a row
+                ops.extend_from_slice(&[4, timeout.min(1 << 40), 0, 0]);
+                let k = 1 + r.below(nch.min(4));
+                for _ in 0..k {
+                    ops.extend_from_slice(&[3, r.below(nch) as i64, 0, 0]);
+                }
+            }
+            _ => random_op(r, nch, &mut ops),
         }
     }
-    len as usize
+    let n = ops.len() / 4;
+    v.extend(ops);
+    n
 }
 
 /// Abstract alphabet for the bounded-exhaustive part (one channel + a second one).
